@@ -224,8 +224,9 @@ pub fn run_program(m: &mut HwMonitor, col: &mut Collector, rng: &mut Rng) {
     for g in t0.gpr.iter_mut() {
         *g = rng.val();
     }
-    t0.gpr[4] = STACK + 0x1000 + 8 * rng.below(0x200) + if rng.below(8) == 0 { rng.below(8) } else { 0 };
-    t0.gpr[5] = STACK + 0x1800;
+    // programs run around the 64 KiB boundary in the middle of the stack region
+    t0.gpr[4] = if rng.below(2) == 0 { STACK_BOUNDARY + 8 * rng.below(8) - 8 * rng.below(4) } else { STACK + 0x1000 + 8 * rng.below(0x200) } + if rng.below(8) == 0 { rng.below(8) } else { 0 };
+    t0.gpr[5] = STACK + 0x2800;
     // the machine is built over base + program
     let base: Vec<Vec<u8>> = match m.child_base(col) {
         Some(b) => b,
